@@ -2349,6 +2349,8 @@ impl<T: PPGEvaluatorStrategy> PPGEvaluator<T> {
         // a stack of neighbour iterators instead of recursion (same visiting order):
         // ephemeral chains can be arbitrarily long
         let mut todo = vec![dag.neighbors_directed(node_idx, Direction::Incoming)];
+        // look above each not-ready ephemeral only once, no matter how many paths lead to it
+        let mut seen: HashSet<NodeIndex> = HashSet::new();
         while let Some(upstreams) = todo.last_mut() {
             let upstream_idx = match upstreams.next() {
                 Some(upstream_idx) => upstream_idx,
@@ -2363,7 +2365,9 @@ impl<T: PPGEvaluatorStrategy> PPGEvaluator<T> {
                 JobState::Ephemeral(state) => match state {
                     JobStateEphemeral::NotReady(_) => {
                         //new_signals.push(NewSignal!(SignalKind::ConsiderJob,upstream_idx, jobs));
-                        todo.push(dag.neighbors_directed(upstream_idx, Direction::Incoming));
+                        if seen.insert(upstream_idx) {
+                            todo.push(dag.neighbors_directed(upstream_idx, Direction::Incoming));
+                        }
                     }
                     JobStateEphemeral::ReadyButDelayed => {
                         reconsider_job!(jobs, upstream_idx, new_signals, gen.get());
